@@ -32,7 +32,7 @@ def one(name):
             res[c] = {"exit": cp.returncode, "lines": [l.replace(tmp, "<scratch>")[:200] for l in lines][:6], "obligations": [o.replace(tmp, "<scratch>") for o in obl][:4]}
     finally:
         shutil.rmtree(tmp, ignore_errors=True)
-    json.dump(res, open(f"{d}/detect.json", "w"), indent=1)
+    json.dump(res, open(f"{d}/" + os.environ.get("DETECT_NAME", "detect.json"), "w"), indent=1)
     return name, res
 
 
